@@ -217,6 +217,9 @@ class Ctx:
                                                             "-Dtlc2.tool.queue.IStateQueue=StateDeque"])
             cmd += ["-workers", "1", "-config", cfgp, path]
             e = dict(os.environ, TRACE=f)
+            for k in self.known:
+                if k["kind"] == "finding" and k["property"] == self.prop and k.get("cls"):
+                    e["KNOWN_" + k["cls"]] = "1"
             try:
                 r = subprocess.run(cmd, cwd=os.path.dirname(path), stdout=subprocess.PIPE,
                                    stderr=subprocess.STDOUT, text=True, timeout=timeout, env=e)
@@ -227,6 +230,13 @@ class Ctx:
             m = re.search(r"(\d+) states generated, (\d+) distinct states found", out)
             gen = int(m.group(1)) if m else 0
             dist = int(m.group(2)) if m else 0
+            for k in self.known:
+                if k["kind"] == "finding" and k["property"] == self.prop and k.get("cls"):
+                    n = out.count('<<"KNOWN-FINDING-HIT", "%s">>' % k["cls"])
+                    if n:
+                        k["hits"] = k.get("hits", 0) + n
+                        if k not in self.known_hits:
+                            self.known_hits.append(k)
             amb = out.count('<<"AMBIGUOUS"')
             if amb:
                 self.extra["catalogue_ambiguous_sites"] = self.extra.get("catalogue_ambiguous_sites", 0) + amb
@@ -356,7 +366,7 @@ class Ctx:
     def match_known(self, ev):
         s = json.dumps(ev, sort_keys=True)
         for k in self.known:
-            if k["kind"] == "finding" and k["property"] == self.prop and k["pattern"] in s:
+            if k["kind"] == "finding" and k["property"] == self.prop and k["pattern"] and k["pattern"] in s:
                 return k
         return None
 
@@ -525,7 +535,8 @@ def load_known_findings():
         pm = re.search(r"pattern=(\S+)", rest)
         if pm:
             pat = pm.group(1)
-        res.append({"kind": kind, "property": prop, "pattern": pat, "line": line})
+        cm = re.search(r"class=([A-Za-z0-9_]+)", rest)
+        res.append({"kind": kind, "property": prop, "pattern": pat, "cls": cm.group(1) if cm else "", "line": line})
     return res
 
 
@@ -537,8 +548,11 @@ def run_check(prop, tier, plan, level, rule, assumptions=(), trusted=()):
         distinct = plan(ctx)
         if ctx.distinct:
             distinct = len(ctx.distinct) + ctx.extra.get("distinct_points_in_exhaustive_sweeps", 0)
-        for k in ctx.known_hits:
-            log("KNOWN-FINDING: property=%s %s" % (prop, k["line"]))
+        # one line per LISTED finding of this property (whether or not this run's inputs met it), with the hit count
+        for k in ctx.known:
+            if k["kind"] == "finding" and k["property"] == prop:
+                log("KNOWN-FINDING: property=%s %s [met %d time(s) in this run]" % (
+                    prop, re.sub(r"^finding:\s+property=\S+\s+", "", k["line"]), k.get("hits", 1 if k in ctx.known_hits else 0)))
         ctx.write_evidence(level, rule, distinct, 0, assumptions, trusted)
         log("OK property=%s tier=%s wall=%.1fs states=%d events=%d" % (prop, tier, time.time() - ctx.t0, ctx.states,
                                                                       ctx.events))
